@@ -2,6 +2,7 @@ import RModel.Base.Lit
 import RModel.Model.Fs
 import RModel.Model.Apply
 import RModel.Lemmas.RenamePhase
+import RModel.Props.C02ren
 /-
   C05 — Renaming never overwrites or loses existing files.   (property theorems only)
 
@@ -163,6 +164,60 @@ theorem shared_destination_refused (t : Tree) (p : Plan)
       (R := fun a b : Ren => skipRen a = false → skipRen b = false → a.newPath = b.newPath → a.path = b.path)
       (fun a b h hb ha he => (h ha hb he.symm).symm) hpw r hr r' hr' hrr
       (hskip r hn0 hid) (hskip r' (he ▸ hn0) hid') he)
+
+/-- C05, second sentence, with NO hypothesis about destinations: "every file present before a successful apply is still
+    present afterwards, at its old path or its planned new path".  For every tree and every plan whose renames change
+    only the last component of distinct existing sources: if apply reports success, the tree is `moveAll` of the tree
+    the content phase left — the same number of nodes, every node with its kind, mode and link target, the node
+    originally at `q` now at `finalPath p.rens q` (its own rename and those of its ancestors), and a path without a
+    renamed prefix where it was.  Nothing is overwritten, merged or dropped.  (The destination guard `DestFree` of the
+    composition theorems is not assumed: success implies it, by `C02ren.destFree_iff_preflight_loop`.) -/
+theorem successful_apply_keeps_every_node (t : Tree) (p : Plan) (h1 : C02ren.LastOnly p.rens)
+    (h2 : C02ren.DistinctSources p.rens) (h3 : C02ren.TreeWF t) (h4 : C02ren.KindsOk t p.rens)
+    (hok : (applyPlan t p).outcome = .ok) :
+    ∃ t1, contentPhase p.hunks t (sortedFiles p.hunks) = (.ok, t1) ∧
+      (applyPlan t p).tree = C02ren.moveAll p.rens t1 ∧
+      t1.map (·.1) = t.map (·.1) ∧
+      (applyPlan t p).tree.map (·.2) = t1.map (·.2) ∧
+      (applyPlan t p).tree.length = t.length ∧
+      (∀ q, (∀ r ∈ p.rens, pre r.path q = false) → C02ren.finalPath p.rens q = q) := by
+  -- the loop passed, or the outcome would be a refusal
+  have hp : preflight t [] p.rens = none := by
+    cases hp : preflight t [] p.rens with
+    | none => rfl
+    | some o =>
+      rw [RenamePhase.applyPlan_preflight_refusal t p hp] at hok
+      rcases RenamePhase.preflight_some _ _ hp with rfl | rfl <;> cases hok
+  have h5 := (C02ren.destFree_iff_preflight_loop t p.rens h1 h3 h4).2 hp
+  -- the content phase succeeded, or its outcome would be the outcome
+  cases hcp : contentPhase p.hunks t (sortedFiles p.hunks) with
+  | mk o t1 =>
+    have ho : o = .ok := by
+      cases o with
+      | ok => rfl
+      | _ =>
+        rw [RenamePhase.applyPlan_pass hp] at hok
+        unfold applyCore at hok
+        rw [hcp] at hok
+        cases hok
+    subst ho
+    have hc : (contentPhase p.hunks t (sortedFiles p.hunks)).1 = .ok := by rw [hcp]
+    have hmv := C02ren.applyPlan_moves t p h1 h2 h3 h4 h5 hc
+    rw [hcp] at hmv
+    have htree : (applyPlan t p).tree = C02ren.moveAll p.rens t1 := by
+      rcases hmv with h | h | ⟨e, h⟩
+      · exact h.2
+      · rw [hok] at h; cases h
+      · rw [hok] at h; cases h
+    have hs := RenamePhase.sameShape_contentPhase p.hunks (sortedFiles p.hunks) t
+    rw [hcp] at hs
+    refine ⟨t1, rfl, htree, hs.1, ?_, ?_, fun q hq => C02ren.nothing_else_moves p.rens q hq⟩
+    · rw [htree]; exact C02ren.nodes_preserved p.rens t1
+    · rw [htree]
+      have := congrArg List.length hs.1
+      simp only [List.length_map] at this
+      simp only [C02ren.moveAll, List.length_map]
+      exact this
 
 /-- non-vacuity: the `foo\d -> bar` scenario is refused as a shared destination, tree untouched -/
 example : (applyPlan [([b!"foo1.txt"], .file b!"A" 420), ([b!"foo2.txt"], .file b!"B" 420)]
